@@ -24,6 +24,19 @@ pub fn cfg_for(family: &str) -> GenCfg {
             c.array_rate = 0.5;
             c.string_rate = 0.4;
         }
+        "closed" => {
+            // no function definitions: the whole program can be moved into a function body
+            c.func_rate = 0.0;
+            c.loop_rate = 0.3;
+        }
+        "fused" => {
+            // integer work inside functions: variable-op-literal shapes in both orders
+            c.func_rate = 0.6;
+            c.float_rate = 0.03;
+            c.string_rate = 0.05;
+            c.array_rate = 0.05;
+            c.loop_rate = 0.25;
+        }
         "names" => {
             c.shadow_rate = 0.3;
             c.func_rate = 0.45;
